@@ -351,6 +351,14 @@ class FloatValue(RealValue):
         r = f"{type(self).__name__}({format_float(self._value)})"
         return r
 
+    def _ufl_signature_data_(self, renumbering):
+        """Signature data: the value at full precision.
+
+        The repr is rounded when ``ufl.constantvalue.precision`` is set; two
+        different literals must not share a signature then.
+        """
+        return f"{type(self).__name__}({self._value!r})"
+
 
 @ufl_type(wraps_type=int, is_literal=True)
 class IntValue(RealValue):
